@@ -137,7 +137,7 @@ func init() {
 			}
 			staked := []world.Op{
 				opDel(0, 0, "aaa", "10"), opDel(0, 1, "aaa", "7"), opDel(1, 0, "aaa", "3"), opDel(1, 1, "bbb", "10"),
-				opBlock(1), opReward("stake", "1000"), opUnd(0, 0, "aaa", "3"), opRed(0, 1, 0, "aaa", "2"),
+				opBlock(1), opReward("stake", "1000"), opUnd(0, 0, "aaa", "3"), opRed(0, 1, 0, "aaa", "2"), opBlock(1),
 			}
 			if tier == "thorough" {
 				return []*engine.Scenario{
